@@ -34,6 +34,7 @@ var registry = map[string]checkFn{
 	"C14": runC14,
 	"C15": runC15,
 	"C16": runC16,
+	"C17": runC17,
 	"C18": runC18,
 	"C19": runC19,
 }
